@@ -223,6 +223,7 @@ pub fn base_set(n: &Named) -> Arc<BitSet> {
 
 pub fn item_matches(it: &ClassItem, c: char) -> bool {
     match it {
+        ClassItem::Lit('.', crate::rx::LitForm::BareDot) => dot_matches(c),
         ClassItem::Lit(l, _) => *l == c,
         ClassItem::Range(a, b) => *a <= c && c <= *b,
         ClassItem::Named(n, neg) => base_set(n).get(c) != *neg,
@@ -264,6 +265,12 @@ pub fn dot_matches(c: char) -> bool {
 
 fn item_set(it: &ClassItem) -> BitSet {
     match it {
+        ClassItem::Lit('.', crate::rx::LitForm::BareDot) => {
+            let mut s = BitSet::empty();
+            s.set('\n');
+            s.set('\r');
+            s.not()
+        }
         ClassItem::Lit(l, _) => {
             let mut s = BitSet::empty();
             s.set(*l);
